@@ -797,9 +797,10 @@ def check_c12(exe, tier, seed, verdict):
         recsns = rnd.sample(recsns, 600)
     nns = check_nosuffix_fold(exe, recsns, verdict)
     ok += nns
+    ok += check_longnames_fold(exe, verdict)
     cov = {"states": r.distinct, "transitions": r.generated, "traces_validated_against_impl": ok,
            "evaluations": len(recs) * 9, "distinct_nontrivial": nn,
-           "rule": "every 2-layer tree (main x4 per layer, every subset of 3 names per layer, content shapes) exported by TLC (%d trees, %d replayed): econf_readDirs, econf_readDirsWithCallback, econf_readConfig(+WithCallback) with PARSING_DIRS=<the same two directories>, econf_readDirsHistory(+WithCallback) econf_readDirs under econf_set_conf_dirs, and econf_readDirs(+WithCallback) with the directories as relative names are all run on the SAME tree and each compared with the specification's expectation (so with each other); history members: path -> file identity, own content, order; model invariant HistoryFolds: folding the history with masking gives the result. The same under a non-default process-wide drop-in directory list, and with the suffix NULL / empty (every directory entry counts; %d trees over the names .conf, a.conf, a.conf.bak, conf): all merged-result entry points agree, both history variants agree and the delivered history folded with masking (Trace_Layers!THistFold) gives the result. non-trivial = >= 2 files consulted and all seven calls compared." % (total, len(recs), nns),
+           "rule": "every 2-layer tree (main x4 per layer, every subset of 3 names per layer, content shapes) exported by TLC (%d trees, %d replayed): econf_readDirs, econf_readDirsWithCallback, econf_readConfig(+WithCallback) with PARSING_DIRS=<the same two directories>, econf_readDirsHistory(+WithCallback) econf_readDirs under econf_set_conf_dirs, and econf_readDirs(+WithCallback) with the directories as relative names are all run on the SAME tree and each compared with the specification's expectation (so with each other); history members: path -> file identity, own content, order; model invariant HistoryFolds: folding the history with masking gives the result. The same under a non-default process-wide drop-in directory list, and with the suffix NULL / empty (every directory entry counts; %d trees over the names .conf, a.conf, a.conf.bak, conf): all merged-result entry points agree, both history variants agree and the delivered history folded with masking (Trace_Layers!THistFold) gives the result; the same with ONE drop-in name of 6, 64, 200, 254 and 255 bytes present in both layers. non-trivial = >= 2 files consulted and all seven calls compared." % (total, len(recs), nns),
            "samples": [{"tree": tree_text({"main": x["main"], "drop": x["drop"], "shp": x["shp"]}), "history": x["hist"]} for x in recs[100:101]],
            "exhaustive": tier == "thorough",
            "trusted_base": ["TLC 1.8.0", "gcc ASan/UBSan", "drv.c"]}
@@ -990,6 +991,70 @@ def check_merged_paths(exe, tier, seed, verdict):
     return ok, sum(1 for x, _ in pool if x["merged"] and x["shp"][1] == "c")
 
 
+def check_longnames_fold(exe, verdict):
+    """C12 with drop-in names up to NAME_MAX: the SAME long name in both layers (the vendor file must be masked), next to a main
+    file and a short-named drop-in; all merged-result entry points against the delivered history folded with masking."""
+    cases = []
+    lens = [6, 64, 200, 254, 255]
+    for i, n in enumerate(lens):
+        R = ROOT + "/lnf%d" % i
+        name = "n" * (n - 5) + ".conf"
+        u, e = R + "/usr/etc", R + "/etc"
+        sc = ["rm %s" % hx(R), "file %s %s" % (hx(u + "/cfg.conf"), hx("M=main\n")),
+              "file %s %s" % (hx(u + "/cfg.conf.d/" + name), hx("A=dist\nONLYDIST=1\n")), "file %s %s" % (hx(e + "/cfg.conf.d/" + name), hx("A=etc\n")),
+              "file %s %s" % (hx(e + "/cfg.conf.d/zz.conf"), hx("Z=1\n"))]
+        h = 1
+        for call in ("readdirs %d %s %s %s %s x3d x23" % (h, hx(u), hx(e), hx("cfg"), hx("conf")), "readdirscb %d %s %s %s %s x3d x23" % (h + 10, hx(u), hx(e), hx("cfg"), hx("conf"))):
+            hh = int(call.split()[1])
+            sc += ["cbreset", call, "dump %d" % hh, "free %d" % hh]
+        for hh, cb in ((21, ""), (31, "cb")):
+            sc += ["cbreset", "newopt %d %s" % (hh, hx("PARSING_DIRS=%s:%s" % (u, e))), "readconfig%s %d %s - %s %s x3d x23" % (cb, hh, hx("prj"), hx("cfg"), hx("conf")), "dump %d" % hh, "free %d" % hh]
+        for hh, cb in ((41, ""), (51, "cb")):
+            sc += ["cbreset", "readhist%s %d %s %s %s %s x3d x23" % (cb, hh, hx(u), hx(e), hx("cfg"), hx("conf"))] + ["dump %d" % k for k in range(hh, hh + 6)] + ["free %d" % k for k in range(hh, hh + 6)]
+        sc += ["cbreset"]
+        cases.append((i, sc))
+    res = core.run_cases(exe, cases)
+    events = []
+    idx = []
+    for i, n in enumerate(lens):
+        out = res.get(i)
+        if out is None or out["crash"]:
+            verdict.violation("C12:longnames:crash", {"kind": "longnames", "len": n, "crash": (out or {}).get("crash")}, "entry points crashed on a drop-in name of %d bytes\n%s" % (n, (out or {}).get("crash", "")[:700]))
+            continue
+        ev = out["ev"]
+        reads = [(j, e) for j, e in enumerate(ev) if e["op"].startswith("read")]
+        if any(e["rc"] != "ECONF_SUCCESS" for _, e in reads):
+            verdict.violation("C12:longnames:rc", {"kind": "longnames", "len": n, "rcs": [e["rc"] for _, e in reads]}, "drop-in name of %d bytes: %s" % (n, [e["rc"] for _, e in reads]))
+            continue
+        results, hists = [], []
+        for (j, rd) in reads:
+            dumps = []
+            for e in ev[j + 1:]:
+                if e["op"] == "dump":
+                    dumps.append(e)
+                elif e["op"].startswith("read"):
+                    break
+            if rd["op"].startswith("readhist"):
+                hists.append([{"name": codes(os.path.basename(d["st"]["path"])), "ents": listing_of_dump(d) or []} for d in dumps[:rd["n"]] if d["st"]])
+            else:
+                results.append(sorted_ents(listing_of_dump(dumps[0]) or []))
+        events.append({"e": "histfold", "hist": hists[0], "results": results, "hist2_same": hists[0] == hists[1]})
+        idx.append(n)
+    if not events:
+        return 0
+    okk, tr, _ = core.validate_trace("Trace_Layers", os.path.join(core.SPEC, "Trace_Layers.cfg"), events, timeout=600)
+    mism = [x for x in tr.json_lines() if "mismatch" in x]
+    if not okk and not mism:
+        raise core.ToolFailure("Trace_Layers (histfold, long names) did not consume the trace:\n" + tr.out[-2000:])
+    for m in mism:
+        n = idx[m["mismatch"] - 1]
+        e = events[m["mismatch"] - 1]
+        verdict.violation("C12:longnames:histfold", {"kind": "longnames", "len": n, "event": e, "spec": m.get("spec")},
+                          "the same drop-in name of %d bytes in both layers: history (%d members, both variants equal: %s) folded with masking gives %s\nmerged results: %s" % (
+                              n, len(e["hist"]), e["hist2_same"], show_ents(m["spec"]["folded"]), [show_ents(r) for r in e["results"]][:2]))
+    return len(events) - len(mism)
+
+
 def check_null_dirs(exe, verdict):
     R = ROOT + "/nd"
     s = ["rm %s" % hx(R), "file %s %s" % (hx(R + "/etc/cfg.conf"), hx("K=1\n")), "file %s %s" % (hx(R + "/etc/cfg.conf.d/a.conf"), hx("J=2\n")),
@@ -1036,13 +1101,17 @@ def c13_tree_cases(exe, tier, seed, verdict):
             # a "key text" line is an error only where it cannot continue a value: never directly after an entry
             pre = ["x=1", "# c", ""][:lineno - 1]
             content = "\n".join(pre + [bad, "y=2"]) + "\n"
-            ent = rnd.choice(["std", "stdcb", "readdirs3"]) if True else "std"
+            ent = rnd.choice(["std", "stdcb", "stdcb", "readdirs3"])
             i = len(cases)
             R = ROOT + "/b%d" % (i % 16)
             # the parsing options change nothing about a malformed line: with each of them the same code and location
             shape = Shape("std", opts=["", "JOIN_SAME_ENTRIES=1", "PYTHON_STYLE=1", "JOIN_SAME_ENTRIES=0", "JOIN_SAME_ENTRIES=1;PYTHON_STYLE=1"][i % 5])
             s, paths = materialise(t, shape, R, contents={f: content})
-            s += shape.call(1, R, cb=(ent == "stdcb")) + ["errloc", "dump 1", "free 1"]
+            if ent == "stdcb" and i % 2:
+                # the caller's callback itself reads another (well-formed, longer) file with the library before it answers:
+                # the reported error location must still be the malformed file of the OUTER read
+                s += ["file %s %s" % (hx(R + "/allow.list"), hx("a=1\nb=2\nc=3\nd=4\ne=5\nf=6\n")), "cbreset", "cbread %s" % hx(R + "/allow.list")]
+            s += shape.call(1, R, cb=(ent == "stdcb")) + ["errloc", "dump 1", "free 1", "cbreset"]
             cases.append((i, s))
             metas.append((t, paths, f, code, len(pre) + 1, K))
         if len(cases) >= budget:
